@@ -37,26 +37,27 @@ Chunk ==
 CostMatches(e, s) ==
     LET c == CostOf(s, MachineCostsOf(e.sem)) IN c.cpu = e.cost.cpu /\ c.mem = e.cost.mem
 
-\* "ok" | "skip:<why>" | "bad:<why>"
+\* [c |-> "ok" | "skip" | "bad", why]
+V(c, why) == [c |-> c, why |-> why]
 Verdict(e, s) ==
-    IF ~Terminal(s) THEN "skip:steps"
-    ELSE IF s.mode = "unknown" THEN "skip:" \o s.why
+    IF ~Terminal(s) THEN V("skip", "steps")
+    ELSE IF s.mode = "unknown" THEN V("skip", s.why)
     ELSE IF s.mode = "fail" THEN
-        (IF e.out.o = "fail" THEN "ok"
-         ELSE "bad:spec fails (" \o s.why \o "), observed " \o e.out.o)
+        (IF e.out.o = "fail" THEN V("ok", "")
+         ELSE V("bad", "spec fails (" \o s.why \o "), observed " \o e.out.o))
     ELSE \* done
-        IF e.out.o # "val" THEN "bad:spec returns a value, observed " \o e.out.o
-        ELSE IF e.chk \in {"outcome", "both"} /\ Discharge(s.ctrl) # e.out.v THEN "bad:value differs"
+        IF e.out.o # "val" THEN V("bad", "spec returns a value, observed " \o e.out.o)
+        ELSE IF e.chk \in {"outcome", "both"} /\ Discharge(s.ctrl) # e.out.v THEN V("bad", "value differs")
         ELSE IF e.chk \in {"cost", "both"} /\ "cpu" \in DOMAIN e.cost /\ ~CostMatches(e, s)
-             THEN "bad:cost differs"
-        ELSE "ok"
+             THEN V("bad", "cost differs")
+        ELSE V("ok", "")
 
 Judge ==
     /\ phase = "run" /\ (Terminal(st) \/ st.n >= MaxSteps)
     /\ LET v == Verdict(Rec[l], st) IN
-        /\ bad' = IF SubSeq(v, 1, 3) = "bad" THEN Append(bad, <<l, v>>) ELSE bad
-        /\ skipped' = IF SubSeq(v, 1, 4) = "skip" THEN Append(skipped, <<l, v>>) ELSE skipped
-        /\ okc' = IF v = "ok" THEN okc + 1 ELSE okc
+        /\ bad' = IF v.c = "bad" THEN Append(bad, <<l, v.why>>) ELSE bad
+        /\ skipped' = IF v.c = "skip" THEN Append(skipped, <<l, v.why>>) ELSE skipped
+        /\ okc' = IF v.c = "ok" THEN okc + 1 ELSE okc
     /\ l' = l + 1 /\ phase' = "load" /\ st' = Idle
 
 Finish ==
